@@ -1,5 +1,8 @@
 import McpModel.Base.Proto
 import McpModel.TypedTool.Monitor
+import McpModel.TypedTool.HandlerSet
+import McpModel.TypedTool.Refusal
+import McpModel.TypedTool.MarshalFail
 /-!
 Driver for E12 TypedTool (C16).
 
@@ -539,18 +542,80 @@ def engine : Engine MState where
       match parseToolOp rest with
       | none => (d, { model := "bad-op" })
       | some t =>
+        -- Server.AddTool refuses a tool whose input schema is not object-rooted, after toolForErr has run
+        if refusedByAddTool d t.ev then
+          if impl.startsWith "ok" then
+            (d.regRefused t.ev, { model := "addtool-error", violated := some "C16: registration: AddTool accepted a typed tool whose input schema does not have root type \"object\" (tools/call arguments are an object; Server.AddTool refuses every other input schema)" })
+          else (d.regRefused t.ev, { model := "addtool-error" })
+        else
         let expected := s!"ok pi={t.ownI} po={t.ownO}"
         match d.regTool t.ev (parseToolObs impl) with
         | (d', .addErr) => (d', { model := "addtool-error" })
         | (d', .accept) => (d', { model := impl })
         | (d', .expected v) => (d', { model := expected, violated := v.map Clause.text })
-    | "call" :: rest =>
+    | "call" :: rest0 =>
+      -- hout=! : json.Marshal refuses the handler's output (MarshalFail.lean)
+      let mfail := getKV rest0 "hout" == some "!"
+      let rest := if mfail then rest0.filter (· != "hout=!") else rest0
       match d.callee (getKV rest "tool") with
       | none => (d, { model := "no-tool" })
       | some td =>
+        if mfail then
+          match (parseCallEv rest) >>= mkCall td with
+          | none => (d, { model := "bad-op" })
+          | some ci =>
+            let out := callMF (refEnv lossy64) td.enforced ci.h ci.args
+            let served := deliver (supportsMultiRoundTrip Generated.TypedTool.multiRoundTripSince d.ver) out
+            let model := renderServed served (showLib (libIn td ci)) "-"
+            match parseObs impl with
+            | none => (d, { model := model })
+            | some (o, l, _) =>
+              if disc l (libIn td ci) then
+                (d, { model := impl, violated := some (Clause.text (.libIn (l.getD false) ((libIn td ci).getD false))) })
+              else if judgeMF (ci.h .null).err.isSome o then
+                (d, { model := model, violated := some "C16: invalid_output_is_error_not_result: the handler's output cannot be marshalled to JSON and the call was not answered by an error" })
+              else (d, { model := model })
+        else
         match (parseCallEv rest) >>= mkCall td with
         | none => (d, { model := "bad-op" })
         | some ci =>
+          -- a handler that sets IsError / StructuredContent itself in the result it returns (HandlerSet.lean)
+          let hsetTok := getKV rest "hsc"
+          let hset : Option HSet :=
+            match hsetTok with
+            | none | some "-" => some { isError := getKV rest "hise" == some "1", sc := none }
+            | some t => (parseXJson t).map fun j => { isError := getKV rest "hise" == some "1", sc := some j }
+          match hset with
+          | none => (d, { model := "bad-op" })
+          | some hx =>
+          if hx.isError || hx.sc.isSome then
+            let out := modelCallX td ci.h (fun _ => hx) ci.args
+            let served := deliver (supportsMultiRoundTrip Generated.TypedTool.multiRoundTripSince d.ver) out
+            let model := renderServed served (showLib (libIn td ci)) "-"
+            -- the reference validator's verdict on the output that is validated (the typed output, else the
+            -- handler's own structured content, else null), on exact numbers: the library-discrepancy filter
+            let effJ : Option JVal := match (ci.h .null).out with
+              | .nilAny => if td.osch.isSome then
+                  (match hx.sc with | some j => some j | none => if hx.isError then none else some .null) else none
+              | .nilPtr => td.tool.elemZero
+              | .json j => ci.hout <|> some j
+            let refO : Option Bool := match out.seen, (ci.h .null).err, effJ, td.osch with
+              | some _, none, some j, some s => some (valid s (outForm idEnv td.tool s j).1)
+              | _, _, _, _ => none
+            let model := renderServed served (showLib (libIn td ci)) (showLib refO)
+            match parseObs impl with
+            | none => (d, { model := model })
+            | some (o, l, ol) =>
+              if disc l (libIn td ci) then
+                (d, { model := impl, violated := some (Clause.text (.libIn (l.getD false) ((libIn td ci).getD false))) })
+              else if disc ol refO then
+                (d, { model := impl, violated := some (Clause.text (.libOut (ol.getD false) (refO.getD false))) })
+              else if judgeX td.osch o then
+                (d, { model := model, violated := some "C16: structured_valid: the answer carries structured content that is not valid under the tool's output schema (content the handler set itself in the result it returned: it is the tool's output and must be validated like the typed output)" })
+              else if judgeXText td.osch (ci.h .null).content o then
+                (d, { model := model, violated := some "C16: text_fallback_iff_no_content: structured content under a declared output schema, the handler supplied no content of its own, and the content is not the text rendering of the structured content (structured content the handler set itself in the result it returned)" })
+              else (d, { model := model })
+          else
           -- what a peer at the session's protocol version is answered: the wrapper, then the dispatcher
           let served := modelServe d.ver td ci
           let rep := served.out
